@@ -882,3 +882,7 @@ N("connection hook read into a local, still called last", ["C07", "C08", "C12", 
 B("connection hook called before the session code", ["C07", "C08", "C12"], [(PS, "        if self._cleanStart:\n            self._purgeSession(MQTTSessionCleared())", "        if self.onMqttConnectionMade:\n            self.onMqttConnectionMade()\n        if self._cleanStart:\n            self._purgeSession(MQTTSessionCleared())")], {"C07": ["S-HOOK"], "C08": ["R-HOOK"], "C12": ["Y-HOOK"]})
 N("keepalive argument through a local alias", ["C02", "C04", "C15", "C20"], [(BASE, "        request.keepalive   = keepalive\n", "        period = keepalive\n        request.keepalive   = period\n")])
 B("keepalive falls back to the previous connection's", ["C15"], [(BASE, "        request.keepalive   = keepalive\n", "        request.keepalive   = keepalive or getattr(self, '_lastKeepalive', 0)\n        self._lastKeepalive = request.keepalive\n")], {"C15": ["Q1"]})
+B("PUBLISH.decode refuses a packet that ends with its topic (off-by-one length test)", ["C01", "C06"],
+  [(PDU, "        topicLen       = decode16Int(packet_remaining)\n", "        topicLen       = decode16Int(packet_remaining)\n        if topicLen + 2 >= len(packet_remaining):\n            raise ValueError('PUBLISH topic exceeds the packet', topicLen)\n")], {"C01": ["L3"], "C06": ["P7"]})
+N("PUBLISH.decode refuses a packet shorter than its topic", ["C01", "C02", "C06", "C16"],
+  [(PDU, "        topicLen       = decode16Int(packet_remaining)\n", "        topicLen       = decode16Int(packet_remaining)\n        if topicLen + 2 > len(packet_remaining):\n            raise ValueError('PUBLISH topic exceeds the packet', topicLen)\n")])
